@@ -16,6 +16,9 @@ pub struct LinkActor {
     pub script: Vec<(Id, u8)>,
     /// reply to every handed message m with m+100 to its source
     pub echo: bool,
+    /// a payload this actor's handler ignores (no state change, no output): the link must still
+    /// advance past it
+    pub ignore: Option<u8>,
 }
 pub type LState = Vec<(Id, u8)>;
 
@@ -31,6 +34,9 @@ impl Actor for LinkActor {
         vec![]
     }
     fn on_msg(&self, _id: Id, state: &mut Cow<LState>, src: Id, msg: u8, o: &mut Out<Self>) {
+        if Some(msg) == self.ignore {
+            return;
+        }
         state.to_mut().push((src, msg));
         if self.echo && msg < 100 {
             o.send(src, msg + 100);
@@ -54,7 +60,7 @@ struct LinkSys {
 
 fn systems(th: bool) -> Vec<LinkSys> {
     let mut v = Vec::new();
-    let quiet = || LinkActor { script: vec![], echo: false };
+    let quiet = || LinkActor { script: vec![], echo: false, ignore: None };
     // every sequence of <= 3 (2) messages over payloads {1,2,3} without repetition, plus repeated payloads
     let max = if th { 3 } else { 2 };
     let mut seqs: Vec<Vec<u8>> = vec![vec![1], vec![1, 2], vec![2, 1], vec![1, 1]];
@@ -62,14 +68,17 @@ fn systems(th: bool) -> Vec<LinkSys> {
         seqs.extend(vec![vec![1, 2, 3], vec![3, 1, 2], vec![1, 2, 1], vec![2, 2, 2]]);
     }
     for s in &seqs {
-        v.push(LinkSys { name: format!("one-way {:?}", s), actors: vec![LinkActor { script: s.iter().map(|m| (id(1), *m)).collect(), echo: false }, quiet()] });
+        v.push(LinkSys { name: format!("one-way {:?}", s), actors: vec![LinkActor { script: s.iter().map(|m| (id(1), *m)).collect(), echo: false, ignore: None }, quiet()] });
     }
-    v.push(LinkSys { name: "two-way [1,2] / [3,4]".into(), actors: vec![LinkActor { script: vec![(id(1), 1), (id(1), 2)], echo: false }, LinkActor { script: vec![(id(0), 3), (id(0), 4)], echo: false }] });
-    v.push(LinkSys { name: "echo [1,2]".into(), actors: vec![LinkActor { script: vec![(id(1), 1), (id(1), 2)], echo: false }, LinkActor { script: vec![], echo: true }] });
-    v.push(LinkSys { name: "two peers [->1:1, ->2:2, ->1:3]".into(), actors: vec![LinkActor { script: vec![(id(1), 1), (id(2), 2), (id(1), 3)], echo: false }, quiet(), quiet()] });
+    // a receiver that ignores payload 9: the remaining messages must still arrive, in order
+    v.push(LinkSys { name: "ignoring receiver [1,9,2]".into(), actors: vec![LinkActor { script: vec![(id(1), 1), (id(1), 9), (id(1), 2)], echo: false, ignore: None }, LinkActor { script: vec![], echo: false, ignore: Some(9) }] });
+    v.push(LinkSys { name: "ignoring receiver [9,1]".into(), actors: vec![LinkActor { script: vec![(id(1), 9), (id(1), 1)], echo: false, ignore: None }, LinkActor { script: vec![], echo: false, ignore: Some(9) }] });
+    v.push(LinkSys { name: "two-way [1,2] / [3,4]".into(), actors: vec![LinkActor { script: vec![(id(1), 1), (id(1), 2)], echo: false, ignore: None }, LinkActor { script: vec![(id(0), 3), (id(0), 4)], echo: false, ignore: None }] });
+    v.push(LinkSys { name: "echo [1,2]".into(), actors: vec![LinkActor { script: vec![(id(1), 1), (id(1), 2)], echo: false, ignore: None }, LinkActor { script: vec![], echo: true, ignore: None }] });
+    v.push(LinkSys { name: "two peers [->1:1, ->2:2, ->1:3]".into(), actors: vec![LinkActor { script: vec![(id(1), 1), (id(2), 2), (id(1), 3)], echo: false, ignore: None }, quiet(), quiet()] });
     if th {
-        v.push(LinkSys { name: "two peers [->2:1, ->1:2, ->1:3]".into(), actors: vec![LinkActor { script: vec![(id(2), 1), (id(1), 2), (id(1), 3)], echo: false }, quiet(), quiet()] });
-        v.push(LinkSys { name: "echo [1,2,3]".into(), actors: vec![LinkActor { script: vec![(id(1), 1), (id(1), 2), (id(1), 3)], echo: false }, LinkActor { script: vec![], echo: true }] });
+        v.push(LinkSys { name: "two peers [->2:1, ->1:2, ->1:3]".into(), actors: vec![LinkActor { script: vec![(id(2), 1), (id(1), 2), (id(1), 3)], echo: false, ignore: None }, quiet(), quiet()] });
+        v.push(LinkSys { name: "echo [1,2,3]".into(), actors: vec![LinkActor { script: vec![(id(1), 1), (id(1), 2), (id(1), 3)], echo: false, ignore: None }, LinkActor { script: vec![], echo: true, ignore: None }] });
     }
     v
 }
@@ -155,7 +164,8 @@ pub fn run_c16(a: &Args, shared: &SharedReport) {
                             continue;
                         }
                         // what src's inner actor has sent to dst so far, in order
-                        let mut sent: Vec<u8> = sys.actors[src].script.iter().filter(|(d, _)| *d == id(dst)).map(|(_, m)| *m).collect();
+                        let ignored = sys.actors[dst].ignore;
+                        let mut sent: Vec<u8> = sys.actors[src].script.iter().filter(|(d, m)| *d == id(dst) && Some(*m) != ignored).map(|(_, m)| *m).collect();
                         if sys.actors[src].echo {
                             let handed_to_src: Vec<u8> = s.actor_states[src].verif_wrapped_state().iter().filter(|(f, m)| *f == id(dst) && *m < 100).map(|(_, m)| *m + 100).collect();
                             sent.extend(handed_to_src);
@@ -167,7 +177,7 @@ pub fn run_c16(a: &Args, shared: &SharedReport) {
                         if !is_prefix(&handed, &sent) {
                             viol.push(("c16:handed-over-not-a-prefix".into(), format!("{}: actor {dst} was handed {:?} from {src}, which sent {:?}; trace {:?}", sys.name, handed, sent, trace(i))));
                         }
-                        let pend_to: Vec<u8> = pend.iter().filter(|(d, _, _)| *d == id(dst)).map(|(_, _, m)| *m).collect();
+                        let pend_to: Vec<u8> = pend.iter().filter(|(d, _, m)| *d == id(dst) && Some(*m) != ignored).map(|(_, _, m)| *m).collect();
                         let acked = sent.len().saturating_sub(pend_to.len());
                         if acked > handed.len() {
                             viol.push(("c16:acknowledged-before-handed-over".into(), format!("{}: {src} sent {:?} to {dst} and still retransmits {:?} ({} acknowledged), but {dst} was handed only {:?}; trace {:?}", sys.name, sent, pend_to, acked, handed, trace(i))));
